@@ -62,7 +62,8 @@ def build_harness():
     gosum = os.path.join(hdir, "go.sum")
     if not os.path.exists(gosum):
         shutil.copy(os.path.join(REPO, "go.sum"), gosum)
-    rc, txt = sh(["go", "build", "-tags", "verif", "-o", out, "."], env=GOENV, cwd=hdir, timeout=900)
+    cover = ["-cover", "-coverpkg=github.com/couchbaselabs/rosmar,verifharness"] if os.environ.get("VERIF_COVER") else []   # tools/covrun.sh
+    rc, txt = sh(["go", "build", "-tags", "verif"] + cover + ["-o", out, "."], env=GOENV, cwd=hdir, timeout=900)
     if rc != 0:
         raise Inconclusive("harness/repo build failed:\n" + txt[-3000:])
     return out
